@@ -53,7 +53,43 @@ def run_check(d, prop, scale, tier='quick'):
     return out.returncode, out.stdout + out.stderr[-1500:], time.time() - t
 
 
+def main_refactors(argv):
+    """run.py seeded --refactors [ids]: behaviour-preserving refactorings
+    kept under /verif/refactors/<id>/patch.diff; every check must stay
+    quiet on them (exit 0, no VIOLATION line)."""
+    scale = float(os.environ.get('VERIF_SEEDED_SCALE', '1'))
+    ids = [a for a in argv if not a.startswith('--')]
+    root = os.path.join(core.VERIF, 'refactors')
+    todo = sorted(x for x in os.listdir(root)
+                  if os.path.isdir(os.path.join(root, x))
+                  and (not ids or x in ids))
+    ok = True
+    for rid in todo:
+        d = worktree_with(os.path.join(root, rid, 'patch.diff'))
+        try:
+            mp = os.path.join(root, rid, 'meta.json')
+            checks = ALL
+            if os.path.exists(mp) and '--all-checks' not in argv:
+                checks = json.load(open(mp)).get('checks', ALL)
+            for p in checks:
+                rc, out, dt = run_check(d, p, scale)
+                quiet = rc == 0 and 'VIOLATION' not in out
+                print('%-34s %-4s %s exit=%d %.0fs' % (
+                    rid, p, 'quiet' if quiet else 'ALARM', rc, dt),
+                    flush=True)
+                if not quiet:
+                    ok = False
+                    print('\n'.join(ln for ln in out.splitlines()
+                                    if 'VIOLATION' in ln or 'signature' in ln
+                                    or 'HARNESS' in ln)[:1500])
+        finally:
+            remove(d)
+    return 0 if ok else 1
+
+
 def main(argv):
+    if '--refactors' in argv:
+        return main_refactors(argv)
     all_checks = '--all-checks' in argv
     scale = float(os.environ.get('VERIF_SEEDED_SCALE', '1'))
     ids = [a for a in argv if not a.startswith('--')]
